@@ -209,6 +209,7 @@ def run(ck):
                 nesting=stats["depth"], raises=min(stats["raises"], 2), created_inside=min(stats["created_inside"], 3),
                 sample=[l[:60] for l in lines[-min(12, stats["events"] + 6):]] if h < 1 else None)
     tensor_stream(ck, qr, numpy, m)
+    td_tensor_stream(ck, qr, numpy, m)
     complex_stream(ck, qr, numpy, m)
     scripted_stream(ck, qr, numpy, m)
     model = ck.drive(DRIVER, lines, args=(N,))
@@ -327,6 +328,77 @@ def tensor_stream(ck, qr, numpy, m):
             ck.fail("tensor:%s" % what, "tensor/superoperator stream: %s differs (%.3g)" % (what, dev), inp)
 
 
+def td_tensor_stream(ck, qr, numpy, m):
+    """time-dependent relaxation tensors (all times in one array / operator form), with and without a cut-off time: the action at every
+    time is the same inside and outside a context, and the stored arrays come back after the context"""
+    from quantarhei import Molecule, Aggregate, TimeAxis, CorrelationFunction, energy_units, eigenbasis_of, ReducedDensityMatrix
+    rng = ck.rng
+    ta = TimeAxis(0.0, 60, 1.0)
+    for h in range(ck.n(2, 8)):
+        nmol = 2 if h % 2 == 0 else 3
+        with energy_units("1/cm"):
+            mols = []
+            for k in range(nmol):
+                ml = Molecule([0.0, 12000.0 + 120.0 * k + rng.randint(-30, 30)])
+                ml.set_transition_environment((0, 1), CorrelationFunction(ta, dict(ftype="OverdampedBrownian", reorg=rng.choice([20.0, 40.0]),
+                                                                                      cortime=rng.choice([30.0, 60.0]), T=300, matsubara=20)))
+                mols.append(ml)
+            agg = Aggregate(mols)
+            for i in range(nmol):
+                for j in range(i + 1, nmol):
+                    agg.set_resonance_coupling(i, j, rng.choice([60.0, -90.0, 140.0]))
+        agg.build()
+        for cut, ops in ((None, False), (20.0, False), (20.0, True), (None, True)):
+            inp = {"sites": nmol, "relaxation_cutoff_time": cut, "as_operators": ops}
+            ck.case(("td-tensor", h, cut, ops), nontrivial=True, kind="tensor-stream", nested=False, exception=False)
+            try:
+                RT, ham = agg.get_RelaxationTensor(ta, relaxation_theory="standard_Redfield", time_dependent=True, relaxation_cutoff_time=cut, as_operators=ops)
+                dim = ham.dim
+                rd = numpy.zeros((dim, dim), dtype=complex); rd[1, 1] = 0.6; rd[dim - 1, dim - 1] = 0.4; rd[1, dim - 1] = rd[dim - 1, 1] = 0.2
+                A = numpy.array([[rng.randint(-4, 4) / 4.0 for _ in range(dim)] for _ in range(dim)]); A = A + A.T
+                names = ("_Km", "_Lm", "_Ld") if ops else ("_data",)
+                raw0 = [numpy.array(getattr(RT, k)).copy() for k in names]
+
+                def act(tidx):
+                    if ops:
+                        RT.set_time(tidx) if hasattr(RT, "set_time") else None
+                        K, L, Ld = numpy.array(RT.Km), numpy.array(RT.Lm), numpy.array(RT.Ld)
+                        rho = numpy.array(ReducedDensityMatrix(data=rd.copy()).data)
+                        out = numpy.zeros_like(rho)
+                        Lt = L[tidx] if L.ndim == 4 else L
+                        Ldt = Ld[tidx] if Ld.ndim == 4 else Ld
+                        for mm in range(K.shape[0]):
+                            out = out + K[mm] @ rho @ Ldt[mm] + Lt[mm] @ rho @ K[mm] - K[mm] @ Lt[mm] @ rho - rho @ Ldt[mm] @ K[mm]
+                        return out
+                    return numpy.tensordot(numpy.array(RT.data)[tidx], rd)
+
+                tix = [1, 15, 25, 45, ta.length - 1]
+                outside = [complex(numpy.trace(A @ act(t_))) for t_ in tix]
+                with eigenbasis_of(ham):
+                    S = numpy.array(m.basis_transformations[-1], dtype=float)
+                    A_in, rd_in = S.T @ A @ S, S.T @ rd @ S
+                    rd_keep = rd
+                    rd = rd_in
+                    inside = [complex(numpy.trace(A_in @ act(t_))) for t_ in tix]
+                    rd = rd_keep
+                raw1 = [numpy.array(getattr(RT, k)).copy() for k in names]
+                sc = max(1e-300, max(abs(z) for z in outside))
+                worst = max(abs(a - b) for a, b in zip(inside, outside))
+                if worst > 1e-9 * sc:
+                    kbad = tix[int(numpy.argmax([abs(a - b) for a, b in zip(inside, outside)]))]
+                    ck.fail("td-tensor:action", "tr(A R(t)[rho]) of a time-dependent tensor differs inside and outside eigenbasis_of(H)", dict(inp, time_index=kbad),
+                            float(worst / sc))
+                dv = max(float(numpy.abs(a - b).max()) for a, b in zip(raw0, raw1))
+                if dv > 1e-9 * max(float(numpy.abs(a).max()) for a in raw0):
+                    ck.fail("td-tensor:restore", "stored arrays of a time-dependent tensor are not restored after the context", inp, dv)
+            except Exception as e:
+                ck.fail("raises:td-tensor", "time-dependent tensor in a context raised %r" % (e,), inp)
+            if len(m.basis_stack) != 1 or m.basis_registered or m.current_basis_operator is not None:
+                ck.fail("td-tensor:bookkeeping", "bookkeeping not restored", inp)
+                m.basis_stack[:] = [0]; m.basis_transformations[:] = [1]; m.basis_registered.clear()
+                m._in_eigenbasis_of_context = False; m.current_basis_operator = None
+
+
 def complex_stream(ck, qr, numpy, m):
     """contexts of COMPLEX Hermitian operators (unitary, not orthogonal, transformations) on operators and states:
     diagonal/ascending inside, tr(A rho) invariant, everything restored after leaving (nested, through exceptions,
@@ -436,11 +508,17 @@ def scripted_stream(ck, qr, numpy, m):
             try:
                 with eigenbasis_of(c1):
                     S1 = numpy.array(m.basis_transformations[-1], dtype=float)
+                    book1 = (len(m.basis_stack), bool(m._in_eigenbasis_of_context), m.current_basis_operator is c1)
                     if depth == 2:
                         with eigenbasis_of(c2):
                             S2 = numpy.array(m.basis_transformations[-1], dtype=float)
                             obj.data = newv.copy()
                             back_in = numpy.array(obj.data).copy()
+                        # the inner context is left, the outer one is still open: its bookkeeping is what it was before the inner one
+                        book2 = (len(m.basis_stack), bool(m._in_eigenbasis_of_context), m.current_basis_operator is c1)
+                        if book2 != book1 or book1 != (2, True, True):
+                            ck.fail("script:bookkeeping:after-inner-exit", "after a nested context is left the bookkeeping of the enclosing context is not "
+                                    "what it was (stack depth, in-context flag, current basis operator)", inp, list(book2), list(book1))
                         St = S1 @ S2
                     else:
                         obj.data = newv.copy()
@@ -507,4 +585,33 @@ def scripted_stream(ck, qr, numpy, m):
                         [list(m.basis_stack), sorted(m.basis_registered), m.current_basis_operator is not None])
                 m.basis_stack[:] = [0]; m.basis_transformations[:] = [1]; m.basis_registered.clear()
                 m._in_eigenbasis_of_context = False; m.current_basis_operator = None
+    # ---- a basis context entered while energy units other than the internal ones are active: still the eigenbasis of the operator ------
+    from quantarhei import energy_units
+    for uctx in ("1/cm", "eV", "nm", "THz"):
+        hd = symm() + numpy.diag([0.0, 6.0, 9.0]) + 4.0 * numpy.eye(N)          # positive spectrum (wavelengths are defined)
+        with energy_units("int"):
+            hq = Hamiltonian(data=hd.copy())
+        a0 = symm(); A = Operator(data=a0.copy())
+        inp = {"script": "eigenbasis_of(Hamiltonian) entered inside energy_units", "units": uctx}
+        ck.case(("script-units", uctx), nontrivial=True, kind="scripted", cls="Hamiltonian", nesting=1)
+        try:
+            with energy_units(uctx):
+                with eigenbasis_of(hq):
+                    hq.data                                   # (presentation in the context's basis happens on access)
+                    hin = numpy.array(hq._data).copy()
+                    ain = numpy.array(A.data).copy()
+                    S = numpy.array(m.basis_transformations[-1], dtype=float)
+            ev = numpy.linalg.eigvalsh(hd)
+            off = float(numpy.abs(hin - numpy.diag(numpy.diag(hin))).max())
+            if off > 1e-9 or numpy.abs(numpy.diag(hin) - ev).max() > 1e-9 or numpy.abs(ain - S.T @ a0 @ S).max() > 1e-9:
+                ck.fail("script:units-context:diagonal", "inside eigenbasis_of(H) entered under energy_units(%r) the Hamiltonian is not diagonal with ascending "
+                        "eigenvalues / another object is not presented in that basis" % uctx, inp, [off, numpy.diag(hin).tolist()], ev.tolist())
+            if numpy.abs(numpy.asarray(hq._data) - hd).max() > 1e-9 or numpy.abs(numpy.asarray(A._data) - a0).max() > 1e-9:
+                ck.fail("script:units-context:restore", "objects not restored after a basis context entered under energy_units(%r)" % uctx, inp)
+        except Exception as e:
+            ck.fail("raises:script:units-context", "raised %r" % (e,), inp)
+        if len(m.basis_stack) != 1 or m.basis_registered or m.current_basis_operator is not None:
+            ck.fail("script:units-context:bookkeeping", "bookkeeping not restored", inp)
+            m.basis_stack[:] = [0]; m.basis_transformations[:] = [1]; m.basis_registered.clear()
+            m._in_eigenbasis_of_context = False; m.current_basis_operator = None
 
